@@ -187,4 +187,11 @@ theorem tie_skel_Stream_getStreamState : Gen.Skel.Stream_getStreamState = [
   "return atomic.LoadUint32(&s.state)",
   "}"] := by rfl
 
+/-! further functions on this property's paths (any edit to them is reported) -/
+
+theorem tie_skel_Stream_setCallbacks : Gen.Skel.Stream_setCallbacks = [
+  "func (s *Stream) setCallbacks(sc StreamCallbacks) {",
+  "atomic.StorePointer((*unsafe.Pointer)(unsafe.Pointer(&s.callback)), unsafe.Pointer(&sc))",
+  "}"] := by rfl
+
 end Tie.C20
